@@ -1,4 +1,5 @@
 import BPT.C.Api
+import BPT.C.Errors
 import Driver.Util
 /- C-extension part of the driver.  Keys are `ord#serial`, values are object serials. -/
 namespace Driver
@@ -148,6 +149,13 @@ def cStep (p : CSt) (ws : List String) : CSt × String :=
   | ["wclear"], some s => fin (C.wclear (s.size + 1) s) fun s' => ({ p with st := some s' }, "ok")
   | ["dump"], some s => (p, cdump s)
   | ["refs"], some s => (p, fmtRefs (C.slots s))
+  | [op, _, _], some s =>
+    if op == "badin" then (p, "false")      -- `sq_contains` clears every error of the lookup and answers 0
+    else if op == "badset" || op == "badget" || op == "baddel" then
+      (match C.raisingCall s with
+       | some (s', _) => ({ p with st := some s' }, "typeerror")
+       | none => if op == "badset" then ({ p with dead := true }, "no-compare") else (p, "no-compare"))
+    else (p, "bad-op")
   | _, _ => (p, "bad-op")
 
 end Driver
